@@ -281,7 +281,14 @@ def audit(ctx, index):
                         bad.append('%s:%d' % (os.path.relpath(p, LEAN_DIR), i))
     if bad:
         ctx.add_broken('audit', 'forbidden-token', ', '.join(bad[:10]))
-    return {'theorems': status, 'forbidden_hits': bad}
+    recheck = None
+    if ctx.tier == 'thorough' and ok_mods:
+        # independent re-check of the compiled modules (and everything they import) by leanchecker
+        r = common.run(['lake', 'env', 'leanchecker'] + ok_mods, cwd=LEAN_DIR)
+        recheck = {'modules': ok_mods, 'exit': r.returncode}
+        if r.returncode != 0:
+            ctx.add_broken('audit', 'leanchecker', (r.stdout or '')[-600:])
+    return {'theorems': status, 'forbidden_hits': bad, 'leanchecker': recheck}
 
 
 def write_replay(ctx, v, kind):
